@@ -175,6 +175,21 @@ def gen_glue():
         for args in ([], ["a"], ["a", "a"], ["a", "b"], ["a", "b", "d1"], ["a", "b", "d1", "zz"], ["b", "b", "d2"]):
             pre = [] if kind == "none" else [["add", "a", "b", "d1"]] if kind in ("domain", "conddomain") else [["add", "a", "b"]]
             yield dict(kind=kind, L=10, ops=pre + [["g", args]], stream="glue", scope="in")
+    # one generated g function (one enforce call) asked about every pair, in several domains and in both orders of the domains
+    for kind in rm_corr.KINDS:
+        dom = kind in ("domain", "conddomain")
+        for links in ([["a", "b"]], [["a", "b"], ["b", "c"]], [["a", "b"], ["c", "b"]]):
+            if dom:
+                for doms_of in (["d1"], ["d2"], ["d1", "d2"]):
+                    pre = [["add", u, r, d] for u, r in links for d in doms_of]
+                    for order in (["d1", "d2"], ["d2", "d1"]):
+                        qs = [["g", [x, y, d]] for x in N3 for y in N3 for d in order]
+                        yield dict(kind=kind, L=10, ops=pre + qs, stream="glue", scope="in")
+                        qs = [["g", [x, y, d]] for d in order for x in N3 for y in N3]
+                        yield dict(kind=kind, L=10, ops=pre + qs, stream="glue", scope="in")
+            else:
+                pre = [["add", u, r] for u, r in links]
+                yield dict(kind=kind, L=10, ops=pre + [["g", [x, y]] for x in N3 for y in N3] + [["g", [y, x]] for x in N3 for y in N3], stream="glue", scope="in")
     rulesets = [
         [["a", "b"], ["b", "c"]],
         [["a", "b", "d1"], ["b", "c", "d1"], ["c", "a", "d2"]],
